@@ -323,7 +323,7 @@ class Piece:
         self.tag = tag
 
 
-def weave_fn(fn_text, contract, unit, log, features_on, in_trait_impl=False, reach=False, has_body=True):
+def weave_fn(fn_text, contract, unit, log, features_on, in_trait_impl=False, reach=False, has_body=True, type_args=None):
     """Return list[Piece] for one function."""
     name = contract.fn_name if contract else re.search(r'\bfn\s+(\w+)', fn_text).group(1)
     qual = '%s.%s' % (unit, name)
@@ -338,6 +338,13 @@ def weave_fn(fn_text, contract, unit, log, features_on, in_trait_impl=False, rea
                 raise LostAnchor("%s: @rewrite %s expects %d occurrence(s) of %r, found %d" % (name, rule, count, old, n))
             text = text.replace(old, new)
             log.append(dict(rule=rule, fn=name, what='%r => %r (x%d)' % (old, new, count)))
+    # R23: constructor calls get an explicit type argument (the verified file has one impl per instance, the source one
+    # generic impl, so `List::new()` would be ambiguous); a contract's @rewrite may pick a non-default instance first
+    for tyname, targs in (type_args or {}).items():
+        n23 = len(re.findall(r'\b%s::new\(\)' % tyname, text))
+        if n23:
+            text = re.sub(r'\b%s::new\(\)' % tyname, '%s::<%s>::new()' % (tyname, targs), text)
+            log.append(dict(rule='R23', fn=name, what='%s::new() -> %s::<%s>::new() (x%d)' % (tyname, tyname, targs, n23)))
     # R6: `&dyn Fn(A) -> B` parameters become a generic `&F` (static instead of dynamic dispatch of the same closure)
     k6 = 0
     while True:
@@ -690,8 +697,10 @@ def build_unit(unit_dir, repo, reach=False):
                 raise Unsupported("R7: accessor %s no longer has body `%s` (found `%s`)" % (' :: '.join(chk['path']), acc['body'], body[:80]))
         inline_acc.append(acc)
 
-    def emit_fn(src, path, s, h, e, group_serves, in_trait_impl, mono=None):
+    def emit_fn(src, path, s, h, e, group_serves, in_trait_impl, mono=None, instance=None):
         key = (src.path, tuple(path))
+        if instance:
+            key = (src.path, tuple(path[:-2] + [path[-2] + '#' + instance, path[-1]]))
         c = contracts.get(key)
         if c:
             used.add(key)
@@ -738,6 +747,8 @@ def build_unit(unit_dir, repo, reach=False):
                 G.log.append(dict(rule='R7', fn=path[-1], what='%s -> %s (x%d; callee body checked to be `%s`)' % (acc['call'], acc['replacement'], n, acc['body'])))
         sha = hashlib.sha256(fn_text.encode()).hexdigest()
         name = path[-1].split(' ', 1)[1]
+        if instance:
+            name = name + '#' + instance
         serves = (c.serves if c and c.serves else group_serves) or U['serves']
         if c and c.mode == 'external_body':
             # keep signature + contract only; body is NOT verified (listed as assumed)
@@ -753,7 +764,8 @@ def build_unit(unit_dir, repo, reach=False):
             G.fn_spans.append((start, end, name, serves, 'assumed'))
             return
         start = sum(len(p.text.encode()) for p in P)
-        pcs = weave_fn(fn_text, c, unit, G.log, features_on, in_trait_impl, reach and not (c and c.no_reach))
+        pcs = weave_fn(fn_text, c, unit if not instance else '%s.%s' % (unit, instance), G.log, features_on, in_trait_impl, reach and not (c and c.no_reach),
+                       type_args=U.get('default_type_args'))
         P.extend(pcs)
         P.append(Piece('\n\n'))
         end = sum(len(p.text.encode()) for p in P)
@@ -836,7 +848,7 @@ def build_unit(unit_dir, repo, reach=False):
                     if nm in item.get('skip', []):
                         continue
                     seen.add(nm)
-                    emit_fn(src, path + ['fn ' + nm], fs, fh, fe, item.get('serves'), in_trait_impl, mono)
+                    emit_fn(src, path + ['fn ' + nm], fs, fh, fe, item.get('serves'), in_trait_impl, mono, item.get('instance'))
                 if wanted != '*':
                     missing = [w for w in wanted if w not in seen]
                     if missing:
